@@ -835,6 +835,41 @@ def eval_run(case):
                 viol('second_run_uend_value', {'err': err2, 'tol': tols[-1], 'expected(first 4)': c2l(ref2[-1][:4]), 'observed(first 4)': c2l(got2[:4]), 'window': [Tend, Tend2]})
         else:
             res['classes']['premise_not_met:second_run_not_converged'] += 1
+        # ---- a third run() on the same controller after the user has halved the step size of its levels ---------------
+        if not res['viol'] and res['classes'].get('second_run_compared') and np.all(np.isfinite(np.asarray(uend2).reshape(-1))):
+            dt3 = dt / 2
+            got2 = np.asarray(uend2).reshape(-1)
+            for S in ctrl.MS:
+                S.levels[0].params.dt = dt3
+            Tend3 = Tend2 + L * dt3 * nblocks
+            try:
+                with warnings.catch_warnings():
+                    warnings.simplefilter('ignore')
+                    uend3, stats3 = ctrl.run(u0=mesh_from(P, got2), t0=Tend2, Tend=Tend3)
+            except Exception as e:  # noqa: BLE001
+                viol('run_after_step_size_change_raised', {'error': f'{type(e).__name__}: {e}'[:200]})
+                return res
+            resid3 = [float(x[1]) for x in get_sorted(stats3, type='residual_post_step', sortby='time')]
+            us3 = get_sorted(stats3, type='u', sortby='time')
+            K3 = O.run_bound_constants(Q, dt3, pb['A_full'], L, alpha, pb['A_impl'])
+            if len(resid3) > 0 and all(np.isfinite(r) and r <= restol for r in resid3) and K3['rho'] < 0.5:
+                ref3 = O.sequential(Q, nodes, dt3, pb['A_full'], got2, Tend2, L * nblocks, pb['forcing'])
+                got3 = np.asarray(uend3).reshape(-1)
+                K3max = max(K3['K_C'], K3['K_next'])
+                tol3, tp = 0.0, 0.0
+                for b in range(nblocks + 1):
+                    tol3 = C_R * K3max * restol + K3['K_ic'] * tp + C_E * EPS * K3['condC'] * umax
+                    tp = tol3
+                err3 = float(np.abs(got3 - ref3[-1]).max()) if np.all(np.isfinite(got3)) else float('inf')
+                res['classes']['run_after_step_size_change_compared'] += 1
+                worst = max(worst, err3 / tol3)
+                res['worst']['run_values'] = worst
+                if len(us3) != L * nblocks:
+                    viol('run_after_step_size_change_step_count', {'expected': L * nblocks, 'observed': len(us3), 'times': [float(t) for t, _ in us3][:12]})
+                elif not err3 / tol3 <= 1:
+                    viol('run_after_step_size_change_uend_value', {'err': err3, 'tol': tol3, 'dt': dt3, 'expected(first 4)': c2l(ref3[-1][:4]), 'observed(first 4)': c2l(got3[:4]), 'window': [Tend2, Tend3]})
+            else:
+                res['classes']['premise_not_met:run_after_step_size_change_not_converged'] += 1
     if L >= 2 and max(niter or [0]) >= 1:
         res['nontrivial'].append(common.short_hash(base))
     res['sample'] = dict(base, dt=dt, t0=t0, niter=niter, max_residual=max(resid), rho_oracle=K['rho'], K_C=K['K_C'], K_next=K['K_next'], worst_ratio=worst, steps_compared=matched)
